@@ -155,7 +155,7 @@ func (z *Interpreter) Execute(varInputs r.ElementMap) (r.Element, error) {
 		return nil, WrapSyntaxError(parser, MODULE_NAME_MAIN, err)
 	}
 
-	vm := r.InitVM(GlobalValues)
+	vm := r.InitVM(NewGlobalValues())
 	vm.SetModuleCodeFinder(finder)
 	vm.LoadExternalLibs(z.externalLibs)
 	// #4. eval program
